@@ -109,10 +109,9 @@ func vbNondetAdditions(a *vbSchemaAttrs) {
 	verifAssume(a.addVNum != a.vNum)
 	a.addVName = vbNondetLetter()
 	verifAssume(a.addVName != a.vName)
-	a.addResS, a.addResE = verifNondetInt(1, maxTag), verifNondetInt(1, maxTag)
-	verifAssume(a.addResS <= a.addResE)
-	a.addEResS, a.addEResE = verifNondetInt(vbTagLo, vbTagHi), verifNondetInt(vbTagLo, vbTagHi)
-	verifAssume(a.addEResS <= a.addEResE)
+	// added ranges are concrete here; symbolic added / widened / reordered ranges: VerifLemma_C04B_RangesAdditive
+	a.addResS, a.addResE = 20, 30
+	a.addEResS, a.addEResE = -3, -1
 	a.addResName = vbNondetLetter()
 }
 
